@@ -824,6 +824,15 @@ static void classify_death(int status, const char *errtxt, char *kind, size_t n)
         char s[64];
         slugify(s, sizeof(s), p + strlen("ThreadSanitizer: "), 30);
         snprintf(kind, n, "tsan.%s", s);
+    } else if ((p = strstr(errtxt, "== Conditional jump or move depends on uninitialised")) != NULL
+               || (p = strstr(errtxt, "== Use of uninitialised value")) != NULL
+               || (p = strstr(errtxt, "== Invalid read")) != NULL
+               || (p = strstr(errtxt, "== Invalid write")) != NULL
+               || (p = strstr(errtxt, "== Invalid free")) != NULL
+               || (p = strstr(errtxt, "== Syscall param")) != NULL) {
+        char s[64];
+        slugify(s, sizeof(s), p + 3, 40);
+        snprintf(kind, n, "memcheck.%s", s);
     } else if (WIFSIGNALED(status)) {
         int sg = WTERMSIG(status);
         snprintf(kind, n, "signal.%s", sg == SIGSEGV ? "SIGSEGV" : sg == SIGFPE ? "SIGFPE" :
@@ -951,8 +960,10 @@ int vrt_main(int argc, char **argv, const struct vrt_harness *h)
         if (i == W) continue;
         alive--;
         G->slot[i].pid = 0;
-        if (!G->slot[i].finished) {
-            /* abnormal death: build a violation from the progress page */
+        if (!G->slot[i].finished || WIFSIGNALED(st) || (WIFEXITED(st) && WEXITSTATUS(st) != 0)) {
+            /* abnormal death (or a tool such as memcheck/TSan turning the exit status non-zero after
+             * the worker finished): build a violation from the progress page */
+            const int was_finished = G->slot[i].finished;
             struct slot *s = &G->slot[i];
             struct viol *v = xmap(sizeof(*v));
             char path[512], *errtxt = xmap(65536), kind[96];
@@ -960,8 +971,13 @@ int vrt_main(int argc, char **argv, const struct vrt_harness *h)
             snprintf(path, sizeof(path), "%s/w%d.%d.err", outdir, i, s->gen);
             read_head(path, errtxt, 65536);
             classify_death(st, errtxt, kind, sizeof(kind));
-            snprintf(v->key, sizeof(v->key), "crash.%s.%s.%s", kind,
-                     s->entry ? s->entry : "none", s->state ? s->state : "any");
+            if (was_finished)
+                /* the cases completed; a tool (memcheck --error-exitcode, TSan) made the exit status non-zero:
+                 * its report is on the harness's stderr, the entry point is not known */
+                snprintf(v->key, sizeof(v->key), "crash.tool-error-reported-at-exit.%s", kind);
+            else
+                snprintf(v->key, sizeof(v->key), "crash.%s.%s.%s", kind,
+                         s->entry ? s->entry : "none", s->state ? s->state : "any");
             sanitize_key(v->key);
             snprintf(v->msg, sizeof(v->msg), "worker died (%s, wait status 0x%x) during case %lld op %llu",
                      kind, st, (long long)s->cur_case, (unsigned long long)s->nops);
@@ -972,7 +988,7 @@ int vrt_main(int argc, char **argv, const struct vrt_harness *h)
             munmap(v, sizeof(*v)); munmap(errtxt, 65536);
             s->cases_failed++;
             /* respawn into the same slot if work remains */
-            if (deaths < 48 && !G->stop && G->next_case < G->ncases) {
+            if (!was_finished && deaths < 48 && !G->stop && G->next_case < G->ncases) {
                 pid_t np;
                 s->gen++;
                 s->cur_case = -1;
